@@ -10,6 +10,7 @@
    [moved_of c s] = bytes the reader gave out / the writer accepted; [idx_of t a] = host index of
    the byte at target address a. *)
 From VM Require Import Prelude.MachInt Prelude.Outcome Prelude.C1314List Impl.Io Impl.IoGuest Spec.C14 Suite.C14 Proofs.C14.
+From VM Require Impl.Guest Proofs.LinkIoGuest.
 
 (* the model satisfies the executable checker on every well-formed case *)
 Theorem C14_model_ok : forall c, wf14 c = true -> ok_C14 c (run_C14 c) = true.
@@ -103,3 +104,110 @@ Print Assumptions C14_exact_ok_iff_full.
 Print Assumptions C14_upto_returns_moved.
 Print Assumptions C14_moved_le_count.
 Print Assumptions C14_frame.
+
+(* ---------------------------------------------------------------------------------------------
+   LINK to C03 (Proofs/LinkIoGuest.v).  The guest-level theorems above are about IoGuest.v's OWN
+   transcription of try_access and of the stream methods (one host byte list, regions as windows).
+   C03 verifies Guest.v's transcription (one byte list per region, abstract find_region).  They
+   are the same functions:  [LinkIoGuest.erase] forgets only the source-line number carried by a
+   Panic (the two files cite different revisions of guest_memory.rs), [tr_res] maps the error
+   classes (GIo e |-> EIOError: C03 does not model the io::ErrorKind), [lay L] is the (start, len)
+   layout of the regions, [M_of L m] the per-region byte lists cut out of the host byte list. *)
+
+(* for EVERY callback, fuel, address, count and state: IoGuest.try_access is Guest.try_access over
+   the linear find_region, the state being (stream, host memory) and the callback re-indexed by
+   region number *)
+Theorem C14_try_access_is_C03s : forall (S : Type) md L count addr (f : cbT S) fuel cur total s m,
+  LinkIoGuest.erase (omap LinkIoGuest.trx (try_access md fuel L count addr f cur total s m)) =
+  LinkIoGuest.erase (Guest.try_access Guest.find_lin md (LinkIoGuest.lay L) count (LinkIoGuest.cb_of L f) fuel (s, m) cur total).
+Proof. exact @LinkIoGuest.try_access_same. Qed.
+
+(* read_volatile_from: for every in-memory source handing out at most `chunk` bytes per call
+   ([chunk_reader]), on every well-formed guest target of C14 ([wfmem] = the TGuest clause of wf14),
+   running IoGuest's transcription (VolatileSlice offset / subslice checks, retry_eintr!, region
+   delegation, try_access) and cutting the final host memory into regions gives exactly the result
+   of Guest.gm_read_volatile_from - the function C03_read_volatile_from_refines_flat is about *)
+Theorem C14_read_volatile_from_is_C03s : forall (S : Type) chunk (srcof : S -> list N) (call : callT S),
+  LinkIoGuest.chunk_reader chunk srcof call ->
+  forall L md addr s m count, LinkIoGuest.wfmem L m ->
+  LinkIoGuest.erase (omap (fun x => (LinkIoGuest.abs_rd srcof L (fst x), LinkIoGuest.tr_res (snd x)))
+      (gm_read_volatile_from md (Datatypes.S (Datatypes.S (length L + length (srcof s)))) call L addr s m count)) =
+  LinkIoGuest.erase (Guest.gm_read_volatile_from Guest.find_lin md (LinkIoGuest.M_of L m) addr chunk (srcof s) count).
+Proof. exact @LinkIoGuest.read_volatile_from_same. Qed.
+
+(* the real `impl ReadVolatile for &[u8]` (Impl/Io.v, verified by C13) is such a source *)
+Theorem C14_slice_source_is_chunk_reader : LinkIoGuest.chunk_reader W64 slice_rem slice_read_volatile.
+Proof. exact LinkIoGuest.slice_is_chunk_reader. Qed.
+
+(* the abstraction used: a write inside region i's window of the host byte list is Guest.v's
+   write_at on region i's own byte list and is invisible to every other region *)
+Theorem C14_host_memory_abstraction : forall L m i st bs, LinkIoGuest.wfmem L m -> (i < length L)%nat ->
+  st + nlen bs <= g_len (nth i L LinkIoGuest.dregion) ->
+  LinkIoGuest.M_of L (mem_write m (g_moff (nth i L LinkIoGuest.dregion) + st) bs) =
+  Guest.upd_nth (LinkIoGuest.M_of L m) i
+    (Guest.set_bytes (nth i (LinkIoGuest.M_of L m) Guest.dummy)
+       (Guest.write_at (Guest.rbytes (nth i (LinkIoGuest.M_of L m) Guest.dummy)) (N.to_nat st) bs)).
+Proof. exact LinkIoGuest.M_of_write. Qed.
+
+(* ... the exact form likewise (same PartialBuffer wrapper on both sides) *)
+Theorem C14_read_exact_volatile_from_is_C03s : forall (S : Type) chunk (srcof : S -> list N) (call : callT S),
+  LinkIoGuest.chunk_reader chunk srcof call ->
+  forall L md addr s m count, LinkIoGuest.wfmem L m ->
+  LinkIoGuest.erase (omap (fun x => (LinkIoGuest.abs_rd srcof L (fst x), LinkIoGuest.tr_res (snd x)))
+      (gm_read_exact_volatile_from md (Datatypes.S (Datatypes.S (length L + length (srcof s)))) call L addr s m count)) =
+  LinkIoGuest.erase (Guest.gm_read_exact_volatile_from Guest.find_lin md (LinkIoGuest.M_of L m) addr chunk (srcof s) count).
+Proof. exact @LinkIoGuest.read_exact_volatile_from_same. Qed.
+
+(* write_volatile_to / write_all_volatile_to: for every in-memory sink that accepts each buffer
+   completely ([all_writer], what Guest.v assumes of its Vec<u8> sink), IoGuest's transcription
+   (VolatileSlice get_slice check, the write_all_volatile loop with retry_eintr!, region delegation,
+   try_access) leaves the host memory alone and produces exactly the sink contents and result of
+   Guest.gm_write_volatile_to / gm_write_all_volatile_to on the per-region byte lists *)
+Theorem C14_write_volatile_to_is_C03s : forall (S : Type) (sinkof : S -> list N) (call : callT S),
+  LinkIoGuest.all_writer sinkof call ->
+  forall L m, LinkIoGuest.wfmem L m -> forall md addr s count,
+  LinkIoGuest.erase (omap (fun x => (sinkof (fst (fst x)), LinkIoGuest.tr_res (snd x)))
+      (gm_write_volatile_to md (Datatypes.S (length L)) call L addr s m count)) =
+  LinkIoGuest.erase (Guest.gm_write_volatile_to Guest.find_lin md (LinkIoGuest.M_of L m) addr (sinkof s) count).
+Proof. exact @LinkIoGuest.write_volatile_to_same. Qed.
+
+Theorem C14_write_all_volatile_to_is_C03s : forall (S : Type) (sinkof : S -> list N) (call : callT S),
+  LinkIoGuest.all_writer sinkof call ->
+  forall L m, LinkIoGuest.wfmem L m -> forall md addr s count,
+  LinkIoGuest.erase (omap (fun x => (sinkof (fst (fst x)), LinkIoGuest.tr_res (snd x)))
+      (gm_write_all_volatile_to md (Datatypes.S (length L)) call L addr s m count)) =
+  LinkIoGuest.erase (Guest.gm_write_all_volatile_to Guest.find_lin md (LinkIoGuest.M_of L m) addr (sinkof s) count).
+Proof. exact @LinkIoGuest.write_all_volatile_to_same. Qed.
+
+(* the real `impl WriteVolatile for Vec<u8>` (Impl/Io.v) is such a sink in builds without overflow
+   checks (with them it additionally panics if the Vec would reach 2^64 bytes) *)
+Theorem C14_vec_sink_is_all_writer : LinkIoGuest.all_writer s_data (vec_write_volatile Release).
+Proof. exact LinkIoGuest.vec_is_all_writer. Qed.
+
+Example C14_link_nonvacuous :
+  let L := [ {| g_start := 4096; g_len := 6; g_moff := 0 |}; {| g_start := 4102; g_len := 5; g_moff := 6 |} ] in
+  let st := {| s_data := [1;2;3;4;5;6;7;8;9;10;11;12]; s_pos := 1; s_out := [] |} in
+  LinkIoGuest.wfmem L (repeat 0 11) /\
+  omap (fun x => (LinkIoGuest.abs_rd slice_rem L (fst x), LinkIoGuest.tr_res (snd x)))
+       (gm_read_volatile_from Debug 15 slice_read_volatile L 4098 st (repeat 0 11) 7) =
+  Val (([ {| Guest.rstart := 4096; Guest.rbytes := [0;0;2;3;4;5] |}; {| Guest.rstart := 4102; Guest.rbytes := [6;7;8;0;0] |} ],
+        [9;10;11;12]), inl 7) /\
+  Guest.gm_read_volatile_from Guest.find_lin Debug (LinkIoGuest.M_of L (repeat 0 11)) 4098 W64 (slice_rem st) 7 =
+  Val (([ {| Guest.rstart := 4096; Guest.rbytes := [0;0;2;3;4;5] |}; {| Guest.rstart := 4102; Guest.rbytes := [6;7;8;0;0] |} ],
+        [9;10;11;12]), inl 7).
+Proof.
+  cbv zeta. split; [|split].
+  - unfold LinkIoGuest.wfmem. split; [vm_compute; reflexivity|]. split; [vm_compute; reflexivity|].
+    rewrite W64_val. vm_compute. reflexivity.
+  - vm_compute. reflexivity.
+  - rewrite W64_val. vm_compute. reflexivity.
+Qed.
+
+Print Assumptions C14_try_access_is_C03s.
+Print Assumptions C14_read_volatile_from_is_C03s.
+Print Assumptions C14_slice_source_is_chunk_reader.
+Print Assumptions C14_host_memory_abstraction.
+Print Assumptions C14_read_exact_volatile_from_is_C03s.
+Print Assumptions C14_write_volatile_to_is_C03s.
+Print Assumptions C14_write_all_volatile_to_is_C03s.
+Print Assumptions C14_vec_sink_is_all_writer.
